@@ -269,6 +269,7 @@ fn gen_query(r: &mut Rng, t0: &Tbl, t1: &Tbl, force_scalar: bool) -> Query {
         format!("(SELECT {} FROM {} ORDER BY {})", t.cols.iter().map(|c| c.0).collect::<Vec<_>>().join(", "), t.name, keys.join(", "))
     };
     let mut ordered_from: Option<Col> = None;
+    let mut outer_jt: &str = "";
     if jk < 5 {
         if r.chance(1, 5) {
             let oc = r.pick(&cols0[..4]).clone();
@@ -283,6 +284,7 @@ fn gen_query(r: &mut Rng, t0: &Tbl, t1: &Tbl, force_scalar: bool) -> Query {
         cols = cols0.clone();
     } else {
         let (jt_sql, jt_plan) = *r.pick(&[("JOIN", "inner"), ("JOIN", "inner"), ("LEFT JOIN", "left_outer"), ("LEFT JOIN", "left_outer"), ("RIGHT JOIN", "right_outer"), ("FULL JOIN", "full_outer")]);
+        outer_jt = jt_plan;
         // key pair
         let (l, rr, kname) = match r.below(8) {
             0..=3 => (0usize, 0usize, "i32=i32"),
@@ -332,7 +334,51 @@ fn gen_query(r: &mut Rng, t0: &Tbl, t1: &Tbl, force_scalar: bool) -> Query {
     // WHERE (plain predicate and/or one subquery conjunct)
     let mut where_sql: Vec<String> = vec![];
     let mut where_lite: Vec<String> = vec![];
-    if r.chance(2, 5) {
+    if outer_jt != "" && outer_jt != "inner" && r.chance(2, 5) {
+        // WHERE over an OUTER join that lets the NULL-padded rows through: a conjunction of 2–3 predicates on
+        // the padded side's columns, none of which rejects NULLs (`r.k IS NULL`, `(r.b IS NULL OR r.b > 2)`,
+        // `(r.k IS NULL OR l.a > 1)`) — incl. the anti-join idiom `LEFT JOIN … WHERE r.key IS NULL AND …`
+        let n0 = cols0.len();
+        let (padded, other): (Vec<Col>, Vec<Col>) = match outer_jt {
+            "left_outer" => (cols[n0..].to_vec(), cols[..n0].to_vec()),
+            "right_outer" => (cols[..n0].to_vec(), cols[n0..].to_vec()),
+            _ => if r.chance(1, 2) { (cols[n0..].to_vec(), cols[..n0].to_vec()) } else { (cols[..n0].to_vec(), cols[n0..].to_vec()) },
+        };
+        let pints: Vec<Col> = padded.iter().filter(|c| matches!(c.ty, Ty::I32 | Ty::I64)).cloned().collect();
+        let oints: Vec<Col> = other.iter().filter(|c| matches!(c.ty, Ty::I32 | Ty::I64)).cloned().collect();
+        let k = r.range(2, 3);
+        let mut parts: Vec<E> = vec![];
+        for _ in 0..k {
+            let pc = r.pick(&padded).clone();
+            let isnull = E { sql: format!("{} IS NULL", pc.sql), lite: format!("{} IS NULL", pc.sql), plan: format!("(isnull {})", pc.plan) };
+            let e = match r.below(4) {
+                0 | 1 => isnull,
+                2 => {
+                    let c = r.pick(&pints).clone();
+                    let v = r.range(-1, 4);
+                    let (op, pop) = *r.pick(&[(">", ">"), ("<=", "<="), ("=", "="), ("<>", "<>")]);
+                    E { sql: format!("({} OR {} {op} {v})", isnull.sql, c.sql), lite: format!("({} OR {} {op} {v})", isnull.sql, c.sql),
+                        plan: format!("(or {} ({pop} {} {v}))", isnull.plan, c.plan) }
+                }
+                _ => {
+                    let c = r.pick(&oints).clone();
+                    let v = r.range(-1, 4);
+                    let (op, pop) = *r.pick(&[(">", ">"), ("<=", "<="), ("<>", "<>")]);
+                    E { sql: format!("({} OR {} {op} {v})", isnull.sql, c.sql), lite: format!("({} OR {} {op} {v})", isnull.sql, c.sql),
+                        plan: format!("(or {} ({pop} {} {v}))", isnull.plan, c.plan) }
+                }
+            };
+            parts.push(e);
+        }
+        let mut p = parts[0].clone();
+        for q in &parts[1..] {
+            p = E { sql: format!("{} AND {}", p.sql, q.sql), lite: format!("{} AND {}", p.lite, q.lite), plan: format!("(and {} {})", p.plan, q.plan) };
+        }
+        from_plan = format!("(filter {} {from_plan})", p.plan);
+        where_sql.push(p.sql);
+        where_lite.push(p.lite);
+        shape += " where-null-tolerant";
+    } else if r.chance(2, 5) {
         let p = gen_pred(r, &cols, 1);
         from_plan = format!("(filter {} {from_plan})", p.plan);
         where_sql.push(p.sql);
